@@ -78,7 +78,8 @@ class World(WsWorld):
             opts.update(maxMessagePayloadSize=cfg["M"], autoFragmentSize=cfg["frag"])
             deflate = ch.flag("deflate", 0.4)
         else:
-            cfg["Z"] = ch.pick((1, 10, 100, 1000, 5000), "max_message_size")
+            cfg["Z"] = ch.pick((1, 10, 100, 1000, 5000, 2582, 2324, 2840, 300 + ch.choose(6000, "Z-any")), "max_message_size",
+                               (1, 1, 2, 2, 2, 1, 1, 1, 3))
             deflate = True
             # both limits on one connection: a message size limit far above anything the peer sends (so that it decides
             # nothing on the receiving side), which the application's own over-limit sends run into
@@ -258,11 +259,15 @@ class World(WsWorld):
         Z = self.cfg["Z"]
         n = 2 + ch.choose(4, "nmsg")
         for k in range(n):
-            size = max(0, Z + ch.pick((-1, 0, 1, 10 * Z, 11, -Z), "delta", (2, 3, 4, 3, 2, 1)))
+            size = max(0, Z + ch.pick((-1, 0, 1, 10 * Z, 11, -Z, 1 + ch.choose(300, "delta-any")), "delta", (2, 3, 4, 3, 2, 1, 3)))
             if size > 200000:
                 size = Z + 1
             payload = (b"%d:" % k) + mk(size, k)[:max(0, size - 2 - len(str(k)) + 1)]
             payload = payload[:size] if size else b""
+            if ch.flag("one-octet-run", 0.3):
+                # the most compressible payload there is: the limit then falls inside one long match of the deflate stream
+                payload = bytes([ch.pick((2, 0xDD, 0x52, 0x61), "run-octet")]) * size
+                self.run.probe("payload-is-one-long-run")
             wire = self.deflate(payload)
             hdr, pl = self.frame_parts(2, wire, fin=True, rsv=4)
             self.script.append(("hdr", hdr, {"msg": k, "frame": 0, "over": False, "declared": len(wire)}))
